@@ -31,6 +31,24 @@ static std::string ser_path(const ClipperLib::Path& p) {
 }
 
 static void run_lh(Out& out, const ClipperLib::Path& contour, const std::vector<ClipperLib::Path>& holes) {
+    if (holes.size() > 16) {
+        // gdstk's sort() switches from the stable insertion sort (modelled) to quicksort above 16
+        // elements: holes with equal minimum points may then be linked in another order
+        std::vector<ClipperLib::IntPoint> mins;
+        for (auto& h : holes) {
+            if (h.empty()) continue;
+            ClipperLib::IntPoint m = h[0];
+            for (auto& v : h)
+                if (point_less(v, m)) m = v;
+            mins.push_back(m);
+        }
+        for (size_t i = 0; i < mins.size(); i++)
+            for (size_t j = i + 1; j < mins.size(); j++)
+                if (mins[i].X == mins[j].X && mins[i].Y == mins[j].Y) {
+                    out.count("lh:skipped-tie-above-16-holes");
+                    return;
+                }
+    }
     std::string payload = "C " + ser_path(contour) + " H " + hex_u64(holes.size());
     for (auto& h : holes) payload += " " + ser_path(h);
     std::string id = out.add("lh", payload);
